@@ -429,9 +429,10 @@ impl<'a, 'b> Add<&'b Substance> for &'a Substance {
                         Some((
                             k.clone(),
                             Property {
+                                // Amounts in different units (mass + moles)
+                                // have no common property.
                                 output: (&(&self.amount * &prop1.output).unwrap()
-                                    + &(&other.amount * &prop2.output).unwrap())
-                                    .expect("Add"),
+                                    + &(&other.amount * &prop2.output).unwrap())?,
                                 input_name: prop1.input_name.clone(),
                                 input: mol,
                                 output_name: prop1.output_name.clone(),
